@@ -600,9 +600,11 @@ structure SideSem where
   ptrs : List (List String)
   deriving Repr, Inhabited
 
+def nonNil (N : List String) (p : List String) : Bool := !N.contains (joinPath p)
+
 /-- evaluate `x.<path>` for reading: panics on a nil hop -/
 def derefOk (pp : List (List String)) (N : List String) (p : List String) : Bool :=
-  (hops pp p).all (fun h => !N.contains (joinPath h))
+  (hops pp p).all (nonNil N)
 
 /-- the guard `if x.A != nil && x.A.B != nil`: error = panic while evaluating, ok b = its value -/
 def evalGuard (pp : List (List String)) (N : List String) : List (List String) → Except Unit Bool
